@@ -262,6 +262,25 @@ def ex_region(ctx, lat_case, seed=0):
             k = numpy.nonzero(i0 != i1)[0][:5]
             ctx.violate("the region rebuilt from its dictionary assigns points to different cell indices", rc,
                         observed={"points": numpy.column_stack([lon[ins][k], lat[ins][k]]), "rebuilt": i1[k]}, expected={"original": i0[k]}, tags=tags)
+    # history: a sibling region listing the SAME cells in another order (same name, same spacing) is rebuilt from its dictionary in the same
+    # process; a cell's index is its position in the listing, so the sibling's rebuilt copy must follow the sibling's order
+    if len(lat_case["cells"]) >= 2 and lat_case.get("flags") is None and lat_case["ctor"] != "midpoint":
+        perm = numpy.random.default_rng([seed, 181]).permutation(len(lat_case["cells"]))
+        if numpy.array_equal(perm, numpy.arange(perm.size)):
+            perm = perm[::-1]
+        sib_case = dict(lat_case, cells=[lat_case["cells"][int(k)] for k in perm])
+        sib, sib_model, _o = c01.build_region(sib_case)
+        sib.name = reg.name
+        ok4, sib_back, tb4 = ctx.call(lambda: CartesianGrid2D.from_dict(sib.to_dict()))
+        ctx.mon("history:sibling-listing-rebuilt-in-the-same-process", 1)
+        if not ok4:
+            ctx.violate("rebuilding a region from its dictionary raised", rc, observed=repr(sib_back), tb=tb4, tags=dict(tags, history="sibling listing"))
+        elif ins.any():
+            j0 = sib.get_index_of(lon[ins], lat[ins])
+            ok5, j1, tb5 = ctx.call(sib_back.get_index_of, lon[ins], lat[ins])
+            if not ok5 or not numpy.array_equal(j0, j1):
+                ctx.violate("a region rebuilt from its dictionary follows the cell order of another region rebuilt earlier in the process", rc,
+                            observed=repr(j1)[:120], expected={"original": j0[:8]}, tags=dict(tags, history="sibling listing"))
     ctx.nt_bulk(digest(("reg", lat_case, seed)), int(model.near_boundary(lon, lat).sum()))
 
 
